@@ -95,6 +95,18 @@ fn main() {
 
     core::install_quiet_panic_hook();
 
+    // The explorers run many cases in parallel on OS threads. First use of the crate's lazily built
+    // tables is forced here, sequentially, so that the harness itself never races on it: that race
+    // is the subject of C16 (controlled scheduler), not something to stumble over here.
+    {
+        use reed_solomon_simd::engine::tables;
+        let _ = &*tables::EXP_LOG;
+        let _ = &*tables::SKEW;
+        let _ = &*tables::MUL16;
+        let _ = &*tables::MUL128;
+        let _ = &*tables::LOG_WALSH;
+    }
+
     if let Some(case) = case {
         // replay: run the single case twice; both runs must agree (determinism), then verdict
         let r1 = replay(&ctx, &case);
